@@ -5,6 +5,7 @@ import (
 	"fmt"
 	"hash"
 	"math"
+	"strings"
 	"time"
 
 	"github.com/jamespfennell/gtfs"
@@ -226,7 +227,21 @@ func implStream(side any, variant int) string {
 
 // ----- generator -----
 
-var hashStrings = []string{"", "a", "ab", "abc", "b", "bc", "c", "L03N", "0", "\x00", "é", "123456_A..N"}
+var hashStrings = append([]string{"", "a", "ab", "abc", "b", "bc", "c", "L03N", "0", "\x00", "é", "123456_A..N"}, longHashStrings()...)
+
+// strings longer than any fixed-size staging buffer is likely to be (127 to 1100 bytes, also multi-byte)
+func longHashStrings() []string {
+	var out []string
+	for _, n := range []int{127, 128, 129, 200, 255, 256, 257, 300, 561, 1100} {
+		b := make([]byte, n)
+		for i := range b {
+			b[i] = byte('a' + (i*7+n)%26)
+		}
+		out = append(out, string(b))
+	}
+	out = append(out, strings.Repeat("é", 201))
+	return out
+}
 
 func genNum(r *Rng, bits int) uint64 {
 	switch r.Intn(6) {
